@@ -296,14 +296,20 @@ Definition repeat_body (t : text) (count : Z) : res :=
               else Ret (VText (fst (repeat_loop t (Z.to_nat count) [] 0%N)))
        end.
 
+(* A text built by replace or join is refused beyond types.MaxTextLength.  Replace computes the length beforehand, as
+   len(text) + replacements * (len(replacement) - len(needle)) where replacements is strings.Count(text, needle) or
+   the count argument if that is smaller, which is the length of what strings.Replace returns; Join checks its buffer
+   after every item, and the buffer only grows: both are "the result is longer than the limit". *)
+Definition limited_text (t : text) : res := if (max_text_length <? byte_len t)%Z then Ret VErr else Ret (VText t).
+
 (* Replace(env, args...) *)
 Definition replace_body (args : list value) : res :=
   with_arg args 0 (fun a0 => do t <- to_text a0;
   with_arg args 1 (fun a1 => do needle <- to_text a1;
   with_arg args 2 (fun a2 => do replacement <- to_text a2;
   if Nat.eqb (length args) 4 then
-    with_arg args 3 (fun a3 => do count <- to_integer a3; Ret (VText (str_replace t needle replacement count)))
-  else Ret (VText (str_replace t needle replacement (-1)%Z))))).
+    with_arg args 3 (fun a3 => do count <- to_integer a3; limited_text (str_replace t needle replacement count))
+  else limited_text (str_replace t needle replacement (-1)%Z)))).
 
 (* checkRoundingPlaces *)
 Definition max_rounding_places : Z := 100%Z.
@@ -514,10 +520,12 @@ Fixpoint or_fn (values : list value) : res :=
 
 (* Join(env, array, separator): array.Get(i) for i < Count *)
 Definition join_fn (a0 a1 : value) : res :=
-  do items <- to_array a0; do sep <- to_text a1; do parts <- texts_of items; Ret (VText (join sep parts)).
+  do items <- to_array a0; do sep <- to_text a1; do parts <- texts_of items; limited_text (join sep parts).
 
 Definition reverse_body (items : list value) : res := Ret (VArray (rev items)).
-Definition concat_body (x y : list value) : res := Ret (VArray (x ++ y)).
+(* Concat refuses more than types.MaxRenderSize items *)
+Definition concat_body (x y : list value) : res :=
+  if (max_render_size <? zlen x + zlen y)%Z then Ret VErr else Ret (VArray (x ++ y)).
 Definition sum_body (items : list value) : res := do total <- sum_numbers items decimal_zero; Ret (VNum total).
 
 (* TextLength (runes), TextCompare (strings.Compare: byte order = code point order) *)
@@ -576,11 +584,13 @@ Definition call_simple (f : fname) : list value -> res :=
 
 (* ForEach(env, args...): function.Call(env, [item] ++ args[2:]) for every item; an error item ends the loop.
    The nested call has one argument fewer than this one, so [length args] bounds the nesting. *)
-Fixpoint foreach_items (call_f : list value -> res) (items other : list value) (acc : list value) : res :=
+Fixpoint foreach_items (call_f : list value -> res) (items other : list value) (acc : list value) (budget : Z) : res :=
   match items with
   | [] => Ret (VArray (rev acc))
   | item :: r => match call_f (item :: other) with
-                 | Ret v => if is_err v then Ret v else foreach_items call_f r other (v :: acc)
+                 | Ret v => if is_err v then Ret v
+                            else let budget' := (budget - value_cost true 0 v)%Z in      (* types.SpendRenderSize *)
+                                 if (budget' <? 0)%Z then Ret VErr else foreach_items call_f r other (v :: acc) budget'
                  | other_res => other_res
                  end
   end.
@@ -594,7 +604,7 @@ Fixpoint call (fuel : nat) (f : fname) (args : list value) : res :=
         with_rest args 2 (fun other =>
         match fuel with
         | O => NoFuel
-        | S fuel' => foreach_items (call fuel' g) items other []
+        | S fuel' => foreach_items (call fuel' g) items other [] max_render_size
         end)))) args
   | _ => call_simple f args
   end.
@@ -680,6 +690,7 @@ Definition mul_body (x y : dec) : res :=
   let a := dec_canonical x in
   let b := dec_canonical y in
   if exponent_out_of_range (dexp a + dexp b) then Ret VErr
+  else if exponent_out_of_range (num_digits a + num_digits b) then Ret VErr     (* the digits of the product *)
   else match dec_mul a b with Some p => Ret (VNum p) | None => Panic PExponent end.
 
 Inductive binop := OConcat | OEq | ONeq | OAdd | OSub | OMul | ODiv | OPow | OLt | OLte | OGt | OGte.
@@ -694,7 +705,8 @@ Definition cmp_is (want : comparison -> bool) (a b : dec) : res := Ret (VBool (w
 
 Definition eval_binop (op : binop) : value -> value -> res :=
   match op with
-  | OConcat => textual_binary (fun a b => Ret (VText (a ++ b)))
+  | OConcat => textual_binary (fun a b => if (max_text_length <? byte_len a + byte_len b)%Z then Ret VErr
+                                         else Ret (VText (a ++ b)))
   | OEq => textual_binary (fun a b => Ret (VBool (text_eqb a b)))
   | ONeq => textual_binary (fun a b => Ret (VBool (negb (text_eqb a b))))
   | OAdd => numerical_binary (fun a b => Ret (VNum (dec_add a b)))
